@@ -111,21 +111,7 @@ def run(chk, repo, tier):
     common.tilt_slot_agreement(chk, repo, 'C10-e')
 
     # ---------------------------------------------------------------- C10-f
-    fm = repo.func('field.Field.__mul__')
-    _, paths, _ = analyse(repo, fm)
-    ok, det, n = True, '', 0
-    for p in returns(paths):
-        for e in p.events:
-            if e.kind == 'call' and e.data.get('new') == 'field.Field':
-                n += 1
-                t = e.bound.get('tilt')
-                r = alias_root(t) if t is not None else None
-                fresh = t is not None and r is None and isinstance(t, Poly) and \
-                    {nf.attr(S('self'), 'tilt').single_atom(), nf.attr(S('other'), 'tilt').single_atom()} <= t.atoms()
-                if not fresh:
-                    ok, det = False, f'product field gets tilt = {fmt(t)}'
-    chk.ob('C10-f', 'E-ownership', fm.key, 'product carries a new list with both operands\' tilts', ok and n > 0,
-           det or 'tilt = self.tilt + other.tilt (new list)', fm.loc())
+    common.mul_concat(chk, repo, 'C10-f')
     fc = repo.func('plane.Plane.copy')
     _, paths, _ = analyse(repo, fc)
     rets = returns(paths)
